@@ -121,9 +121,66 @@ def _mk(g, table, cfg, recovery):
         kw["build_tree"] = True
     if recovery is not None:
         kw["error_recovery"] = recovery
+    if cfg.get("ctr"):
+        kw["custom_token_recognition"] = peers.custom_token_recognition
     for k in ("tables", "prefer_shifts", "prefer_shifts_over_empty"):
         kw.pop(k, None)
     return cls(g, table=table, **kw)
+
+
+class Mon:
+    """Observer of one parser instance's recovery activity (per-job state is
+    reset by begin): which heads were recovered from where to where for which
+    error, the last error handed to a strategy, recovery activity on the step
+    clock."""
+
+    def __init__(self, clock, mode):
+        self.clock = clock
+        self.mode = mode
+        self.peer = peers.make_recovery(mode)
+        self.p = None
+        self.events, self.act, self.last_err = {}, {"in": False, "last": 0}, []
+
+    def strategy(self):
+        if isinstance(self.peer, peers.RecoveryPeer):
+            return self._call
+        return self.peer
+
+    def attach(self, p):
+        self.p = p
+        if self.peer is True:
+            orig = p.default_error_recovery
+
+            def default_wrapper(head, _orig=orig):
+                pos0 = head.position
+                self.act["in"], self.act["last"] = True, self.clock.ticks
+                r = _orig(head)
+                self.act["in"] = False
+                self.events.setdefault(len(self.p.errors) - 1, []).append(
+                    (pos0, head.position, bool(r)))
+                return r
+
+            # instance attribute: the bool (built-in default) path is kept
+            p.default_error_recovery = default_wrapper
+
+    def begin(self, seed):
+        self.events.clear()
+        self.last_err.clear()
+        self.act.update({"in": False, "last": 0})
+        if isinstance(self.peer, peers.RecoveryPeer):
+            self.peer.begin(seed)
+
+    def _call(self, head, error, default):
+        pos0 = head.position
+        self.last_err[:] = [error]
+        self.act["in"], self.act["last"] = True, self.clock.ticks
+        r = self.peer(head, error, default)
+        self.act["in"] = False
+        if head.position < pos0:
+            raise AssertionError("peer moved backwards")
+        self.events.setdefault(len(self.p.errors) - 1, []).append(
+            (pos0, head.position, bool(r)))
+        return r
 
 
 def child_parses(spec, jobs):
@@ -135,6 +192,8 @@ def child_parses(spec, jobs):
     g = Grammar.from_string(spec["text"], recognizers=peers.wrap_recognizers(spec.get("recs")))
     start_fqn = g.start_symbol.fqn
     tables = {}
+    parsers = {}
+    base_parsers = {}
     clock = StepClock().start()
     reports = []
     try:
@@ -157,7 +216,9 @@ def child_parses(spec, jobs):
             rep = {"probs": [], "kind": cfg["kind"], "mode": job["recovery"]}
             # T0: the same parser without recovery on the undamaged sentence
             peers.SEAM.reset(None)
-            p0 = _mk(g, table, cfg, None)
+            p0 = base_parsers.get(tkey) if spec.get("reuse") else None
+            if p0 is None:
+                p0 = base_parsers[tkey] = _mk(g, table, cfg, None)
             clock.reset(BASE_BUDGET)
             try:
                 try:
@@ -186,42 +247,31 @@ def child_parses(spec, jobs):
                 continue
             # the recovering parse under the step clock
             budget = 200 * (t0 + 2000) + 100 * len(text) ** 2
-            rec = peers.make_recovery(job["recovery"])
-            events = {}  # error index -> [(pre position, post position, ok)] per head
-            holder = []
-            act = {"in": False, "last": 0}  # recovery activity on the step clock
-            if isinstance(rec, peers.RecoveryPeer):
-                rec.begin(job["peer_seed"])
-                last_err = []
-                inner = rec
-
-                def rec(head, error, default, _inner=inner, _le=last_err):  # noqa: F811
-                    pos0 = head.position
-                    _le[:] = [error]
-                    act["in"], act["last"] = True, clock.ticks
-                    r = _inner(head, error, default)
-                    act["in"] = False
-                    if head.position < pos0:
-                        raise AssertionError("peer moved backwards")
-                    events.setdefault(len(holder[0].errors) - 1, []).append(
-                        (pos0, head.position, bool(r)))
-                    return r
-            p = _mk(g, table, cfg, rec)
-            holder.append(p)
-            if rec is True:
-                orig_default = p.default_error_recovery
-
-                def default_wrapper(head, _orig=orig_default):
-                    pos0 = head.position
-                    act["in"], act["last"] = True, clock.ticks
-                    r = _orig(head)
-                    act["in"] = False
-                    events.setdefault(len(holder[0].errors) - 1, []).append(
-                        (pos0, head.position, bool(r)))
-                    return r
-
-                # instance attribute: the bool (built-in default) path is kept
-                p.default_error_recovery = default_wrapper
+            pkey = (tkey, job["recovery"])
+            mon = parsers.get(pkey) if spec.get("reuse") else None
+            if mon is None:
+                mon = Mon(clock, job["recovery"])
+                mon.attach(_mk(g, table, cfg, mon.strategy()))
+                if spec.get("reuse"):
+                    parsers[pkey] = mon
+            mon.begin(job["peer_seed"])
+            p, events, act, last_err, inner = mon.p, mon.events, mon.act, mon.last_err, mon.peer
+            if job.get("abort"):
+                # a parse of this (reused) instance cut short by a failing callback;
+                # nothing is required of it, everything of the parses after it
+                peers.SEAM.reset((job["abort"]["seam"], job["abort"]["k"]))
+                clock.reset(budget)
+                try:
+                    p.parse(text)
+                except StepBudgetExceeded:
+                    pass
+                except Exception:
+                    pass
+                fired = peers.SEAM.fired
+                peers.SEAM.reset(None)
+                clock.reset()
+                reports.append({"skip": "aborted" if fired else "abort_not_fired"})
+                continue
             clock.reset(budget)
             raised = None
             res = None
@@ -396,6 +446,14 @@ def gen_run(rng, tier):
             c["kind"] = "glr"
     kinds = [k for k in pool.DAMAGE_KINDS if rng.random() < 0.7] or ["junk"]
     modes = ["default", "default", "default", "skip", "inject", "mixed", "giveup"]
+    # a third of the runs reuse their parser instances across the 12 parses and
+    # cut some parses short by a failing callback (recognizer, token-recognition
+    # hook, recovery strategy): the invariants must hold for what comes after
+    reuse = rng.random() < 0.35
+    spec["reuse"] = reuse
+    if reuse:
+        for c in cfgs:
+            c["ctr"] = rng.random() < 0.5
     jobs = []
     mt = pool.MAX_TOKENS.get(sc["family"], 40)
     for _ in range(PARSES_PER_RUN):
@@ -417,9 +475,13 @@ def gen_run(rng, tier):
             text = pool.layout_tokens(rng, dt, sc["layout"], fancy=0.2)
             if "trunc_char" in fired and text:
                 text = text[: rng.randrange(len(text))]
-        jobs.append({"cfg": rng.choice(cfgs), "input": text, "clean": clean,
-                     "recovery": rng.choice(modes), "peer_seed": rng.getrandbits(32),
-                     "faults": fired})
+        job = {"cfg": rng.choice(cfgs), "input": text, "clean": clean,
+               "recovery": rng.choice(modes), "peer_seed": rng.getrandbits(32),
+               "faults": fired}
+        if reuse and rng.random() < 0.25:
+            job["abort"] = {"seam": rng.choice(["recognizer", "ctr", "recovery"]),
+                            "k": rng.randint(1, 8)}
+        jobs.append(job)
     return spec, jobs
 
 
@@ -427,39 +489,57 @@ def run_jobs(spec, jobs):
     return call_or_raise(child_parses, spec, jobs, timeout=900)
 
 
-def failing(spec, job, include_known=False):
-    rep = run_jobs(spec, [job])[0]
+def failing(spec, jobs, include_known=False):
+    """jobs: the parses of one simulated process in order; the LAST one is the
+    one under test (earlier ones matter only when instances are reused)."""
+    if isinstance(jobs, dict):
+        jobs = [jobs]
+    rep = run_jobs(spec, jobs)[-1]
     if rep.get("probs") and (include_known or not rep.get("kf")):
         return rep
     return None
 
 
-def minimise(spec, job, budget_s):
-    first = failing(spec, job)
+def minimise(spec, jobs, budget_s):
+    if isinstance(jobs, dict):
+        jobs = [jobs]
+    first = failing(spec, jobs)
     if not first:
         return None
     cls = first.get("class")
     deadline = time.monotonic() + budget_s
-    job = dict(job)
+    jobs = json.loads(json.dumps(jobs))
+    last = jobs[-1]
 
-    def test_text(chars):
-        cand = dict(job, input="".join(chars))
-        r = failing(spec, cand)
+    def same(r):
         return bool(r) and r.get("class") == cls
 
-    chars = ddmin(list(job["input"]), test_text, deadline) if len(job["input"]) > 1 else list(
-        job["input"])
-    if test_text(chars):
-        job["input"] = "".join(chars)
-    for k in list(job["cfg"]["opts"]):
-        cand = dict(job, cfg={"kind": job["cfg"]["kind"],
-                              "opts": {a: b for a, b in job["cfg"]["opts"].items() if a != k}})
-        r = failing(spec, cand)
-        if r and r.get("class") == cls:
-            job = cand
-    job["clean"] = job["clean"] if len(job["clean"]) < 80 else job["clean"][:80]
-    r = failing(spec, job)
-    return {"spec": spec, "job": job, "report": r or first}
+    # drop earlier parses (reuse histories)
+    if len(jobs) > 1:
+        if same(failing(spec, [last])):
+            jobs = [last]
+        else:
+            pre = ddmin(jobs[:-1], lambda sub: same(failing(spec, sub + [last])), deadline)
+            jobs = pre + [last]
+    pre = jobs[:-1]
+
+    def test_text(chars):
+        return same(failing(spec, pre + [dict(last, input="".join(chars))]))
+
+    if len(last["input"]) > 1:
+        chars = ddmin(list(last["input"]), test_text, deadline)
+        if test_text(chars):
+            last["input"] = "".join(chars)
+    for k in list(last["cfg"]["opts"]):
+        cand = dict(last, cfg=dict(last["cfg"], opts={a: b for a, b in last["cfg"]["opts"].items()
+                                                      if a != k}))
+        if not pre and same(failing(spec, [cand])):
+            last = cand
+    if len(last["clean"]) > 80:
+        last["clean"] = last["clean"][:80]
+    jobs = pre + [last]
+    r = failing(spec, jobs)
+    return {"spec": spec, "jobs": jobs, "report": r or first}
 
 
 def one_run(vseed, idx, tier):
@@ -472,8 +552,13 @@ def one_run(vseed, idx, tier):
     sigs = []
     for job, rep in zip(jobs, reports):
         if "skip" in rep:
-            stats.inc("skipped_" + ("build_failed" if rep["skip"] == "build" else rep["skip"]))
+            if rep["skip"] in ("aborted", "abort_not_fired"):
+                stats.inc("reuse." + rep["skip"])
+            else:
+                stats.inc("skipped_" + ("build_failed" if rep["skip"] == "build" else rep["skip"]))
             continue
+        if spec.get("reuse"):
+            stats.inc("reuse.parses_on_reused_instances")
         stats.inc("parses")
         stats.inc(f"kind.{rep['kind']}")
         stats.inc(f"mode.{rep['mode']}")
@@ -500,7 +585,10 @@ def one_run(vseed, idx, tier):
         if rep["probs"] and rep.get("kf"):
             stats.inc("attributed." + rep["kf"])
         elif rep["probs"] and bad is None:
-            bad = {"spec": spec, "job": job, "report": rep}
+            k = len(sigs)  # not used for indexing
+            ji = jobs.index(job)
+            bad = {"spec": spec, "jobs": jobs[: ji + 1] if spec.get("reuse") else [job],
+                   "report": rep}
     res = {"family": spec["family"], "stats": stats.as_dict(), "ticks": ticks,
            "digest": digest([[r.get("raised"), r.get("nerrors"), r.get("ticks"), r.get("probs")]
                              for r in reports]),
